@@ -200,6 +200,11 @@ type readerCase struct {
 	DrainAll bool    `json:"pool_audit_after_every_read,omitempty"`
 	Second   bool    `json:"second_owner,omitempty"` // a second owner takes nodes from the pool between Reads and holds them
 	Direct   bool    `json:"direct_format_reader,omitempty"` // the FormatReader is driven directly (Read is called again after its terminal result)
+	// Dropped: "transform" | "format-reader" | "stream-reader" - the node of delivery number HeldAfter is
+	// kept, every reference to the reader / transform is dropped, the garbage collector runs, a second
+	// owner acquires nodes (dropped.go)
+	Dropped   string `json:"reader_dropped_while_node_held,omitempty"`
+	HeldAfter int    `json:"held_delivery,omitempty"`
 }
 
 // heldTree is a small tree a second owner built from pooled (or fresh) nodes between two Reads
@@ -563,6 +568,11 @@ func readerTrees(r *vh.Rng, sum *vh.Summary, cw *vh.CaseWriter, perFormat int) {
 	hierarchyReaders(r, sum, cw, hierCount)
 	fatalAfterTarget(r, sum, cw, 60)
 	lenientSchema = false
+	dropN := perFormat / 2
+	if dropN > 40 {
+		dropN = 40
+	}
+	droppedReaders(r, sum, dropN)
 }
 
 // ---- racing acquisitions ------------------------------------------------------------------------
@@ -819,7 +829,11 @@ func main() {
 		}
 		idr.VerifResetNodePool()
 		progressFile = filepath.Join(o.Out, "current.json")
-		auditTransform(sum, cw, rc.Format, rc.Schema, in, "replay", drains, rc.DrainAll, rc.Second, rc.Direct)
+		if rc.Dropped != "" {
+			droppedReaderAudit(sum, rc.Dropped, rc.Format, rc.Schema, in, rc.HeldAfter, "replay")
+		} else {
+			auditTransform(sum, cw, rc.Format, rc.Schema, in, "replay", drains, rc.DrainAll, rc.Second, rc.Direct)
+		}
 		cw.Flush()
 		sum.CaseFiles = cw.Files
 		sum.Write(o)
